@@ -9,7 +9,7 @@
    the loop body and final test of dict_union, its `recurse` default, the order of the two config layers,
    the default of the temporary --config_path argument, the WITHOUT_ROOT re-rooting condition, the default
    nested_mode of ArgumentParser / parse(), the discarded key and the exception class of
-   DataclassWrapper.set_default, the keys popped from the constructor arguments in _instantiate_dataclasses, and the "was a default set manually" test of FieldWrapper.default.
+   DataclassWrapper.set_default, the test of _create_dataclass_instance for Optional members, the keys popped from the constructor arguments in _instantiate_dataclasses, and the "was a default set manually" test of FieldWrapper.default.
 
    Abstractions (stated in the evidence): a dict is an association list read by first match, key order is
    not modelled (dict_union sorts its keys; nothing downstream observes the order); argparse is
@@ -52,6 +52,36 @@ Fixpoint subtree (q : path) (t : ptree) : option ptree :=
               | _ => None
               end
   end.
+
+(* ---------- equality of results (used by the correspondence) ---------- *)
+Fixpoint pt_eqb (a b : ptree) {struct a} : bool :=
+  match a, b with
+  | PNull, PNull => true
+  | PVal x, PVal y => val_eqb x y
+  | PMap x, PMap y =>
+      (fix go (x y : list (string * ptree)) : bool :=
+         match x, y with
+         | [], [] => true
+         | (k, ta) :: r, (k', tb) :: r' => String.eqb k k' && pt_eqb ta tb && go r r'
+         | _, _ => false
+         end) x y
+  | _, _ => false
+  end.
+
+(* same dict, whatever the key order *)
+Fixpoint pt_sub (a b : ptree) {struct a} : bool :=
+  match a, b with
+  | PNull, PNull => true
+  | PVal x, PVal y => val_eqb x y
+  | PMap x, PMap y =>
+      (fix go (x : list (string * ptree)) : bool :=
+         match x with
+         | [] => true
+         | (k, ta) :: r => match lookup k y with Some tb => pt_sub ta tb | None => false end && go r
+         end) x
+  | _, _ => false
+  end.
+Definition pt_equiv (a b : ptree) : bool := pt_sub a b && pt_sub b a.
 
 (* ---------- utils.dict_union (two dicts) ---------- *)
 (* state of the loop `for v in values:` for one key; values are referred to by their index in `dicts` *)
@@ -105,16 +135,27 @@ End DictUnion.
 (* DataclassWrapper / FieldWrapper tree.  A leaf carries: is the annotation Optional[..]; field.default
    (None = MISSING); the corresponding attribute of the parent's default instance when add_arguments got
    `default=` (None = the parent has no default instance); FieldWrapper._default (PNull = Python None). *)
+(* A dataclass wrapper is plain (a destination, or a member typed as the dataclass) or wraps a member typed
+   Optional[Dataclass] whose definition default is None; the latter carries: DataclassWrapper._default is not None;
+   some entry of DataclassWrapper.defaults is not None (the parent's default instance holds an instance there). *)
+Inductive cmode := CPlain | COpt (dset : bool) (dinst : bool).
+
 Inductive wtree :=
 | WLeaf (opt : bool) (def : option ptree) (inst : option ptree) (cur : ptree)
-| WClass (fs : list (string * wtree)).
+| WClass (cm : cmode) (fs : list (string * wtree)).
+
+(* DataclassWrapper.set_default: self._default = value *)
+Definition cm_set (cm : cmode) (b : bool) : cmode :=
+  match cm with CPlain => CPlain | COpt _ di => COpt b di end.
+Definition is_copt (cm : cmode) : bool := match cm with CPlain => false | COpt _ _ => true end.
 
 Definition leaf_info : Type := (bool * option ptree * option ptree * ptree)%type.
 
+(* the field at a path that goes through plain members only (the paths the theorems speak about) *)
 Fixpoint leaf_at (q : path) (w : wtree) : option leaf_info :=
   match q, w with
   | [], WLeaf o d i c => Some (o, d, i, c)
-  | k :: r, WClass fs => match lookup k fs with Some c => leaf_at r c | None => None end
+  | k :: r, WClass CPlain fs => match lookup k fs with Some c => leaf_at r c | None => None end
   | _, _ => None
   end.
 
@@ -123,10 +164,11 @@ Fixpoint leaf_at (q : path) (w : wtree) : option leaf_info :=
 Fixpoint init_instance (w : wtree) (t : ptree) {struct w} : wtree :=
   match w with
   | WLeaf o d _ _ => WLeaf o d (Some t) t
-  | WClass fs =>
+  | WClass cm fs =>
       match t with
       | PMap m =>
-          WClass ((fix go (fs : list (string * wtree)) : list (string * wtree) :=
+          WClass (match cm with CPlain => CPlain | COpt _ _ => COpt true true end)
+                 ((fix go (fs : list (string * wtree)) : list (string * wtree) :=
                      match fs with
                      | [] => []
                      | (k, c) :: r => (k, match lookup k m with Some tk => init_instance c tk | None => c end) :: go r
@@ -157,9 +199,9 @@ Section Wrappers.
   Fixpoint set_default_tree (w : wtree) (t : ptree) {struct w} : res wtree :=
     match w with
     | WLeaf o d i _ => Ok (WLeaf o d i t)                  (* self._default = value *)
-    | WClass fs =>
+    | WClass cm fs =>
         match t with
-        | PNull => Ok w                                     (* field_default_values is None: return *)
+        | PNull => Ok (WClass (cm_set cm false) fs)         (* self._default = None; field_default_values is None: return *)
         | PVal _ => Err (Raise "TypeError")                 (* dataclasses.asdict(<not a dataclass>) *)
         | PMap m =>
             match (fix go (fs : list (string * wtree)) : res (list (string * wtree)) :=
@@ -178,7 +220,7 @@ Section Wrappers.
             | Err e => Err e
             | Ok fs' =>
                 if forallb (fun k => str_in k (keys fs) || str_in k discard) (keys m)
-                then Ok (WClass fs') else Err (Raise unknown_err)
+                then Ok (WClass (cm_set cm true) fs') else Err (Raise unknown_err)
             end
         end
     end.
@@ -186,7 +228,7 @@ Section Wrappers.
   (* does a document contain, inside the section of some dataclass, a key that names none of its fields? *)
   Fixpoint has_unknown (w : wtree) (t : ptree) {struct w} : bool :=
     match w, t with
-    | WClass fs, PMap m =>
+    | WClass _ fs, PMap m =>
         negb (forallb (fun k => str_in k (keys fs) || str_in k discard) (keys m))
         || (fix go (fs : list (string * wtree)) : bool :=
               match fs with
@@ -196,27 +238,44 @@ Section Wrappers.
     | _, _ => false
     end.
 
+  Variable opt_guard : bool -> bool -> bool -> bool.   (* Gen: _create_dataclass_instance's test (optional, _default set, defaults hold an instance) *)
+
+  (* the loop of _create_dataclass_instance over wrapper.fields: every field holds its default *)
+  Fixpoint all_at_default (fs : list (string * wtree)) (kvs : list (string * ptree)) : bool :=
+    match fs with
+    | [] => true
+    | (k, WLeaf _ d i c) :: r =>
+        match lookup k kvs with Some v => pt_eqb v (leaf_default d i c) | None => true end && all_at_default r kvs
+    | (_, WClass _ _) :: r => all_at_default r kvs
+    end.
+
   (* argparse + _fill_constructor_arguments_with_fields + _instantiate_dataclasses for one wrapper tree:
-     an option given on the command line overrides the default; a required option that is absent is exit 2 *)
-  Fixpoint finish (w : wtree) (cli : option ptree) {struct w} : res ptree :=
+     an option given on the command line overrides the default; a required option that is absent is exit 2
+     (nothing below an Optional member is required: its wrapper sets required = False on all its descendants);
+     an Optional member nobody gave a default to and whose fields all hold their defaults is None *)
+  Fixpoint finish (req_off : bool) (w : wtree) (cli : option ptree) {struct w} : res ptree :=
     match w with
     | WLeaf o d i c =>
         match cli with
         | Some v => Ok v
-        | None => if leaf_required o d i c then Err (Exit 2) else Ok (leaf_default d i c)
+        | None => if negb req_off && leaf_required o d i c then Err (Exit 2) else Ok (leaf_default d i c)
         end
-    | WClass fs =>
+    | WClass cm fs =>
         match (fix go (fs : list (string * wtree)) : res (list (string * ptree)) :=
                  match fs with
                  | [] => Ok []
                  | (k, c) :: r =>
-                     match finish c (match cli with Some (PMap m) => lookup k m | _ => None end) with
+                     match finish (req_off || is_copt cm) c (match cli with Some (PMap m) => lookup k m | _ => None end) with
                      | Err e => Err e
                      | Ok v => match go r with Ok r' => Ok ((k, v) :: r') | Err e => Err e end
                      end
                  end) fs with
         | Err e => Err e
-        | Ok kvs => Ok (PMap kvs)
+        | Ok kvs =>
+            match cm with
+            | COpt ds di => if opt_guard true ds di && all_at_default fs kvs then Ok PNull else Ok (PMap kvs)
+            | CPlain => Ok (PMap kvs)
+            end
         end
     end.
 End Wrappers.
@@ -233,6 +292,7 @@ Record pstate := mk_pstate { ps_ws : list (string * wtree); ps_ca : ptree }.
 
 Section Parser.
   Variable manual_set : ptree -> bool.
+  Variable opt_guard : bool -> bool -> bool -> bool.
   Variable discard : list string.
   Variable unknown_err : string.
   Variable union : ptree -> ptree -> ptree.            (* dict_union instantiated *)
@@ -306,7 +366,7 @@ Section Parser.
     match ws with
     | [] => Ok []
     | (d, w) :: r =>
-        match finish manual_set w (match cli with PMap m => lookup d m | _ => None end) with
+        match finish manual_set opt_guard false w (match cli with PMap m => lookup d m | _ => None end) with
         | Err e => Err e
         | Ok v => match finish_all r cli with Ok r' => Ok ((d, v) :: r') | Err e => Err e end
         end
@@ -316,7 +376,7 @@ Section Parser.
      instances have been written into it and the stripped keys popped: any other key is an unexpected keyword argument *)
   Definition extra_kwargs (ca : ptree) (dw : string * wtree) : bool :=
     match subtree [fst dw] ca, snd dw with
-    | Some (PMap m), WClass fs => negb (forallb (fun k => str_in k (keys fs) || str_in k ctor_strip) (keys m))
+    | Some (PMap m), WClass _ fs => negb (forallb (fun k => str_in k (keys fs) || str_in k ctor_strip) (keys m))
     | _, _ => false
     end.
 
@@ -343,32 +403,3 @@ Section Parser.
     end.
 End Parser.
 
-(* ---------- equality of results (used by the correspondence) ---------- *)
-Fixpoint pt_eqb (a b : ptree) {struct a} : bool :=
-  match a, b with
-  | PNull, PNull => true
-  | PVal x, PVal y => val_eqb x y
-  | PMap x, PMap y =>
-      (fix go (x y : list (string * ptree)) : bool :=
-         match x, y with
-         | [], [] => true
-         | (k, ta) :: r, (k', tb) :: r' => String.eqb k k' && pt_eqb ta tb && go r r'
-         | _, _ => false
-         end) x y
-  | _, _ => false
-  end.
-
-(* same dict, whatever the key order *)
-Fixpoint pt_sub (a b : ptree) {struct a} : bool :=
-  match a, b with
-  | PNull, PNull => true
-  | PVal x, PVal y => val_eqb x y
-  | PMap x, PMap y =>
-      (fix go (x : list (string * ptree)) : bool :=
-         match x with
-         | [] => true
-         | (k, ta) :: r => match lookup k y with Some tb => pt_sub ta tb | None => false end && go r
-         end) x
-  | _, _ => false
-  end.
-Definition pt_equiv (a b : ptree) : bool := pt_sub a b && pt_sub b a.
